@@ -39,7 +39,7 @@ def convert_configuration(snapshots: Snapshots):
             shiftfactor = snapshot.boxbounds[:, 0] + snapshot.boxlength / 2
             points = snapshot.positions - shiftfactor[np.newaxis, :]
         else:
-            points = snapshot.positions
+            points = snapshot.positions.copy()
 
         # pad 0 for z coordinates
         if snapshot.positions.shape[1] == 2:
